@@ -459,6 +459,52 @@ func vC07GenScript(r *rand.Rand, reqID uint16, rq *vC07Q) ([]vC07Dg, []string) {
 	return dgs, tags
 }
 
+// a long run of stray datagrams (8..40: late replies to timed-out queries, or an off-path
+// flood echoing the question) before the real reply, or before nothing at all
+func vC07GenBurst(r *rand.Rand, reqID uint16, rq *vC07Q) ([]vC07Dg, []string) {
+	var dgs []vC07Dg
+	n := 8 + r.Intn(33)
+	if r.Intn(3) == 0 {
+		n = 7 + r.Intn(4) // around the smallest interesting lengths
+	}
+	mode := r.Intn(3)
+	for i := 0; i < n; i++ {
+		d := vC07Dg{kind: 0, id: reqID + uint16(1+r.Intn(200)), tag: "wrong-id"}
+		if rq != nil {
+			q := *rq
+			switch {
+			case mode == 1 && r.Intn(2) == 0:
+				q, _ = vC07MutQ(r, *rq)
+			case mode == 2:
+				nm := append(vC07Name{}, q.name...)
+				for j := range nm {
+					nm[j] = vC07FlipCase(r, nm[j])
+				}
+				q.name = nm
+			}
+			d.qs = []vC07Q{q}
+		}
+		if mode == 1 && r.Intn(6) == 0 && rq != nil {
+			// right ID, wrong question in the middle of the run: ends the exchange with ErrQuestion
+			d.id = reqID
+			q, k := vC07MutQ(r, *rq)
+			d.qs = []vC07Q{q}
+			d.tag = "right-id-" + k
+		}
+		dgs = append(dgs, d)
+	}
+	tags := []string{fmt.Sprintf("%d strays", n)}
+	if r.Intn(6) != 0 {
+		d := vC07Dg{kind: 0, id: reqID, tag: "good"}
+		if rq != nil {
+			d.qs = []vC07Q{*rq}
+		}
+		dgs = append(dgs, d)
+		tags = append(tags, "good")
+	}
+	return dgs, tags
+}
+
 func vC07Outcome(resp *dns.Msg, err error, lastRead int) (string, string) {
 	mark := vC07Marker(resp)
 	if mark < 0 {
@@ -588,6 +634,10 @@ func TestVerifC07Client(t *testing.T) {
 			req.SetEdns0(1232, false)
 		}
 		dgs, tags := vC07GenScript(r, req.Id, rq)
+		burst := c%16 == 5
+		if burst {
+			dgs, tags = vC07GenBurst(r, req.Id, rq)
+		}
 		var reads [][]byte
 		var cd []string
 		for i, d := range dgs {
@@ -613,6 +663,9 @@ func TestVerifC07Client(t *testing.T) {
 		if stream {
 			proto = "stream"
 		}
+		if burst {
+			proto += "-burst"
+		}
 		emit(map[string]any{
 			"k":          "xchg-" + proto + "-" + ok,
 			"coq":        fmt.Sprintf("CaseExchange %v %d %s [%s] %s", stream, req.Id, rqCoq, strings.Join(cd, ";"), out),
@@ -633,6 +686,12 @@ func TestVerifC07Client(t *testing.T) {
 		q := vC07RandQ(r)
 		req.Question = []dns.Question{q.dns()}
 		dgs, tags := vC07GenScript(r, req.Id, &q)
+		if c%4 == 1 {
+			dgs, tags = vC07GenBurst(r, req.Id, &q)
+			if dgs[len(dgs)-1].tag == "good" {
+				dgs, tags = dgs[:len(dgs)-1], tags[:len(tags)-1]
+			}
+		}
 		// keep the real-socket share free of waits: the script always ends with the real reply
 		good := vC07Dg{kind: 0, id: req.Id, qs: []vC07Q{q}, tag: "good"}
 		dgs = append(dgs, good)
